@@ -407,6 +407,25 @@ RADICAL_EXTRA = ['c1cccc[c]1 |^1:5|', '[c]1ccccc1C |^1:0|', 'c1cc[n]c1 |^1:3|', 
                  '[c]1cc[c]cc1 |^1:0,3|', 'Cc1cc[c]cc1.O |^1:4|']
 
 
+# radicals built through the API (not through the CXSMILES reader): (SMILES, atom number, H count of the radical atom)
+RADICAL_API = [('c1ccccc1', 1, 0), ('Cc1ccccc1', 4, 0), ('c1cc[nH]c1', 4, 0), ('CC', 1, 2), ('CO', 2, 0), ('c1ccncc1', 2, 0),
+               ('c1ccc2ccccc2c1', 1, 0), ('CC(C)C', 2, 0), ('c1ccccc1.CC', 3, 0)]
+
+
+def radical_api():
+    out = []
+    for smi, n, h in RADICAL_API:
+        m = molgen.parse(smi)
+        if m is None:
+            continue
+        a = m._atoms[n]
+        a._is_radical = True
+        a._implicit_hydrogens = h
+        m.flush_cache()
+        out.append((f'radical-api:{smi}@{n}', m))
+    return out
+
+
 def stereo_extra():
     out = []
     for s in STEREO_EXTRA:
@@ -426,6 +445,7 @@ def molecules(ctx):
     out = []
     out += molgen.handmade()
     out += stereo_extra()
+    out += radical_api()
     out += molgen.corpus(rng, 110 if q else 1200)
     for n in (3, 4, 5) if q else (3, 4, 5, 6):
         graphs = list(molgen.small_graphs(n))
